@@ -31,6 +31,7 @@ def run(ctx):
     ctx.guard(rule_a, ctx, ix, f)
     ctx.guard(rule_b, ctx, ix, f)
     ctx.guard(rule_c, ctx, ix)
+    ctx.guard(rule_d, ctx, ix)
 
 
 # ---------------------------------------------------------------------------------------
@@ -432,3 +433,10 @@ def rule_c(ctx, ix):
                                   'not found' % (f.construct, unparse(v)), where=where(f, st))
     if n < 2:
         raise AnalysisError('CategoricalROI: only %d stores into .categories recognised' % n)
+
+
+def rule_d(ctx, ix):
+    """Missing values (NaN) are never selected: every range test of the selection and region code is a positive test."""
+    R = 'C09.d'
+    ctx.describe(R, 'range tests of the selection / region modules are written positively (NaN fails them)', floor=1)
+    common.check_nan_safe_ranges(ctx, R, [ix.module('glue.core.subset'), ix.module('glue.core.roi')], floor=8)
